@@ -131,7 +131,10 @@ def rTarget (P : Prim) (cfg : RefCfg) (self : Env → Expr → Except Err PVal) 
     (func : Expr) (args : List Expr) (kwargs : List (String × Expr)) :
     Except Err (PVal × Option (Consumer × Expr × List Comp)) :=
   if cfg.compiled then do
-    let f ← self env func
+    -- Python evaluates the target expression (a bare name is a namespace lookup, not a sub-evaluation)
+    let f ← match func with
+      | .name id => (match env.lookup id with | some v => .ok v | none => refName P cfg id)
+      | _ => self env func
     pure (f, match f with | .builtin n => consumedGenexp n args kwargs | _ => none)
   else
     match resolveAttrPath func with
